@@ -159,3 +159,63 @@ Qed.
 Lemma output_section_entries f l :
   map fst (output_section f l) = filter (fun e => negb (should_skip f (e_inlib e))) l.
 Proof. unfold output_section. rewrite map_map. simpl. apply map_id. Qed.
+
+(* ------------------------------------------------------------------ every multi-library merge refuses *)
+
+Lemma merge_library_comma old new : memb ch_comma (merge_library false old new) = true.
+Proof.
+  unfold merge_library. cbn [andb]. unfold memb. rewrite existsb_app. cbn [existsb].
+  rewrite N.eqb_refl. rewrite orb_true_r. reflexivity.
+Qed.
+
+Lemma merged_library_keeps_comma more : forall x,
+  memb ch_comma x = true -> memb ch_comma (merged_library false x more) = true.
+Proof.
+  unfold merged_library. induction more as [|m ms IH]; intros x H; [exact H|].
+  cbn [fold_left]. apply IH. apply merge_library_comma.
+Qed.
+
+(* whatever the library names are -- different, equal, empty -- and however many files are merged, a schema
+   built from two or more library files refuses every save *)
+Lemma merged_libraries_refuse first m more ws mode tags ucs secs :
+  process_schema (merged_library false first (m :: more)) ws mode tags ucs secs = Exn HedFileError.
+Proof.
+  apply multi_library_refuses. unfold merged_library. cbn [fold_left].
+  apply (merged_library_keeps_comma more). apply merge_library_comma.
+Qed.
+
+(* not the code: if a name already listed were not repeated, two files of one library would save *)
+Lemma merged_dedupe_saves :
+  exists l ws mode tags ucs secs,
+    is_ok (process_schema (merged_library true l [l]) ws mode tags ucs secs) = true.
+Proof. exists [116%N], [], true, [], [], []. reflexivity. Qed.
+
+(* ------------------------------------------------------------------ names rebuilt from order and level *)
+
+Lemma rebuild_parents_first names : forall previous,
+  parents_first previous names -> rebuild_names previous (map wiki_tag_line names) = Ok names.
+Proof.
+  induction names as [|n rest IH]; intros previous H; [reflexivity|].
+  destruct H as (Hne & Hle & Hpre & Hrest).
+  cbn [map rebuild_names wiki_tag_line].
+  assert (Hlt : Nat.ltb (length previous) (length n - 1) = false) by (apply Nat.ltb_ge; exact Hle).
+  rewrite Hlt. rewrite <- Hpre.
+  assert (Hn : removelast n ++ [last n 0] = n) by (symmetry; apply app_removelast_last; exact Hne).
+  rewrite Hn. rewrite (IH n Hrest). reflexivity.
+Qed.
+
+(* a merged MediaWiki save that lists the tags parents-first is read back with every long name intact *)
+Lemma wiki_names_rebuilt names :
+  parents_first [] names -> rebuild_names [] (map wiki_tag_line names) = Ok names.
+Proof. apply rebuild_parents_first. Qed.
+
+(* ... and an order that is not parents-first is not: a library node listed behind the last subtree of its
+   tree is attached to the wrong parent (finding C05-F7) *)
+Lemma wiki_names_wrong_parent :
+  exists names, rebuild_names [] (map wiki_tag_line names) <> Ok names
+                /\ exists wrong, rebuild_names [] (map wiki_tag_line names) = Ok wrong.
+Proof.
+  exists [[1]; [1; 2]; [1; 3]; [1; 2; 4]]. split.
+  - vm_compute. intro H. discriminate.
+  - eexists. vm_compute. reflexivity.
+Qed.
